@@ -1,10 +1,16 @@
 # -*- coding: utf-8 -*-
+import re
 from .._compat import number_types, string_types
+
+# what a sheet reads as a number: digits with an optional sign, decimal point and exponent;
+# int() and float() also take "inf", "nan", "infinity" and "1_000"
+NUMERIC_TEXT = re.compile(r'\s*[+-]?(\d+\.?\d*|\.\d+)([eE][+-]?\d+)?\s*\Z')
+
 
 def to_number(number):
     if isinstance(number, number_types):
         return number
-    if isinstance(number, string_types):
+    if isinstance(number, string_types) and NUMERIC_TEXT.match(number):
         try:
             return int(number)
         except ValueError:
